@@ -187,8 +187,9 @@ GraphOK(e) ==
     \* C02: the surviving objects do not overlap each other
     /\ G("C02:survivors-overlap", \A i, j \in DOMAIN e.nodes : i < j =>
             Disjoint(Ivl(e.nodes[i].a, e.nodes[i].sz), Ivl(e.nodes[j].a, e.nodes[j].sz)))
-    \* C07 (vo_bit builds): every surviving object is a valid object for MMTk
-    /\ G("C07:survivor-not-valid", \A i \in DOMAIN e.nodes :
+    \* vo_bit builds: every object the roots reach is a valid object for MMTk. A reference that was
+    \* not updated still reads an intact stale copy in released memory; its valid-object bit is gone.
+    /\ G("C01:reference-to-reclaimed-object", \A i \in DOMAIN e.nodes :
             "vo" \in DOMAIN e.nodes[i] => e.nodes[i].vo)
 
 GCEndOK(e) ==
